@@ -1,0 +1,13 @@
+//go:build verif
+
+package qos
+
+import "github.com/cilium/ebpf"
+
+// VerifSetMaps hands the manager already-created maps instead of loading and
+// attaching the object in Start (verification harness only).
+func (m *Manager) VerifSetMaps(egress, ingress, stats *ebpf.Map) {
+	m.qosEgress = egress
+	m.qosIngress = ingress
+	m.qosStatsMap = stats
+}
